@@ -312,6 +312,12 @@ def oracle_C08(scen, m, o, reporter):
                 errs.append(f"test {tp} completed but its phases were {seq}, expected {want}")
             if got and scen.mode == "fork" and got[0][0] == "0":
                 errs.append(f"test {tp}: test code ran in the runner's process in forking mode")
+            # the tally is the last phase: expectations declared by the teardown (and the setup) are tallied too
+            if completes and status_of(o) in ("0", "1") and t.ctx and any(a in ("MF", "MP") for a in t.setup + t.teardown):
+                obs = per_obs.get(tp, [0, 0])
+                if obs[0] != tt[4]:
+                    errs.append(f"test {tp}: {obs[0]} failures reported, but the expectations its setup, body and teardown declare leave {tt[4]} at a tally that comes after the teardown")
+    per_obs = observed_per_test(o, "text", scen) if reporter == "text" else {}
     walk(scen.root, [], True)
     return "; ".join(errs[:3]) if errs else None
 
@@ -327,7 +333,7 @@ def check_C08(ctx):
         for td in (0, 1):
             for ctxv in (0, 1):
                 for oname, body in outcomes.items():
-                    t = T("t", ctx=ctxv, body=body, setup=["P"] if ctxv else [], teardown=["F"] if ctxv and oname == "fail" else [])
+                    t = T("t", ctx=ctxv, body=body, setup=["P"] if ctxv else [], teardown=["F"] if ctxv and oname == "fail" else ["MF", "MP"] if ctxv and oname in ("mock", "pass") else [])
                     root = S("top", su=su, td=td, items=[S("sub", su=td, td=su, items=[T("u", ctx=ctxv, body=["P"]), T("x", x=1, body=["P"])]), t])
                     for mode in ("fork", "inproc", "single:t", "single:u", "single:x"):
                         if mode != "fork" and oname in ("die", "exit") and ctx.tier == "quick" and (su + td + ctxv) % 2:
@@ -1277,7 +1283,8 @@ def check_C20(ctx):
 
 
 # ---- C16: argument-list tokenizer and binding -------------------------------------------------
-IDENTS = ["n", "next", "nx", "xn", "d", "dd", "a", "ab", "abc", "bc", "p0", "p01", "value", "box", "box_doubled", "d_x", "x_d", "len", "buf_len", "buf"]
+IDENTS = ["n", "next", "nx", "xn", "d", "dd", "a", "ab", "abc", "bc", "p0", "p01", "value", "box", "box_doubled", "d_x", "x_d", "len", "buf_len", "buf",
+          "length", "size", "size_max", "gr\u00f6\u00dfe", "gre", "na\u00efve", "nave", "z\u00e4hler", "temp\u00e9rature"]      # prefixes of one another; extended identifiers (UTF-8)
 
 
 def spell(rng, args, style=None):
@@ -1326,6 +1333,8 @@ def check_C16(ctx):
                       repr(bad[1]), found_input=True, facts={"crash": True})
     else:
         for (args, s), g, m in zip(cases, got, model):
+            try: m = m.encode("latin-1").decode("utf-8")      # the model driver prints a byte above 0x7f as the character of that number
+            except (UnicodeEncodeError, UnicodeDecodeError): pass
             if g != m:
                 ndis += 1
                 if ndis <= 3:
@@ -1593,6 +1602,14 @@ def check_C12(ctx):
         vs = [max(-2**63, min(2**63 - 1, rng.choice(B) + k)) for k in range(4)]
         pos = rng.randrange(4)
         cases.append((f"capn {pos} " + " ".join(str(x) for x in vs), str(vs[pos]), None))
+    # the same transports in the states a test can find the reporter's counters in (earlier tests or suites failed / passed)
+    staged = []
+    for c in cases:
+        if rng.random() < 0.15:
+            f, tf, p = rng.choice([(0, 0, 0), (2, 5, 1), (3, 0, 7), (0, 4, 0), (1, 1, 1), (7, 2, 0)])
+            staged.append((f"state {f} {tf} {p}", "state", None))
+        staged.append(c)
+    cases = staged
     lines = [c[0] for c in cases]
     got, rc, err = run_probe(exe, lines, env=asan_env())
     mlines = [c[2] for c in cases if c[2]]
@@ -1603,8 +1620,10 @@ def check_C12(ctx):
                       " ".join(l for l in err.split("\n") if "ERROR" in l or "SUMMARY" in l)[:300], bad, found_input=True, facts={"crash": True})
         return
     ndis = nor = 0
+    cur_state = "state 0 0 0"
     for (line, want, ml), g in zip(cases, got):
         val, _, fails = g.rpartition(" f")
+        if line.startswith("state "): cur_state = line
         if ml:
             m = next(model)
             if m != val:
@@ -1613,7 +1632,7 @@ def check_C12(ctx):
         if val != want or fails != "0":
             nor += 1
             if nor <= 6:
-                ctx.violation(f"[C12] `{line[:100]}`: got {val[:120]} ({fails} failures), the value that went in is {want[:120]}", "# feed to harness/val_probe (ASan)\n" + line, found_input=True,
+                ctx.violation(f"[C12] `{line[:100]}`: got {val[:120]} ({fails} failures), the value that went in is {want[:120]}", "# feed to harness/val_probe (ASan); `state <failures> <total_failures> <passes>` sets the reporter's counters as earlier tests leave them\n" + cur_state + "\n" + line, found_input=True,
                               facts={"form": line.split(" ")[0]})
     ctx.oblige("correspondence C12: model and implementation agree on every captured value and every written buffer", ndis == 0, f"{ndis} disagreements")
     ctx.coverage["correspondence"] = {"cases": len(lines), "disagreements": ndis, "oracle_failures": nor}
